@@ -111,16 +111,39 @@ def main():
         # written files must be byte identical between the two runs as well: covered by DUMP/ACCESS transcripts of re-read? (files are overwritten; compare via READPROB in thorough)
         # ---- 3. valgrind memcheck on a small subset (uninitialised values influencing a result) ---------
         nval = 0
-        if ck.thorough() or os.environ.get("QSX_VALGRIND"):
-            b = build_repo()
-            for cid, scr in cases[:: max(1, len(cases) // 25)]:
-                r = sh(["valgrind", "-q", "--error-exitcode=9", "--track-origins=no", os.path.join(b, "h_solve")], input=scr, timeout=600, env={"QSX_SCRATCH": tmp})
-                nval += 1
-                if r.returncode == 9:
-                    m = re.search(r"==\d+== (Conditional jump[^\n]*|Use of uninit[^\n]*|Invalid (?:read|write)[^\n]*)\n==\d+==\s+at 0x[0-9A-F]+: (\w+)", r.stderr)
-                    fn = m.group(2) if m else "?"
-                    ck.violation("valgrind_%s.txt" % cid, scr + "\n# " + r.stderr[-1500:].replace("\n", "\n# "),
-                                 "valgrind memcheck error in %s (case %s)" % (fn, cid), match=dict(kind="memcheck", site=fn))
+        b = build_repo()
+        vcases = []
+        cdir = os.path.join(VERIF, "corpus", "C17")
+        if os.path.isdir(cdir):
+            for fn in sorted(os.listdir(cdir)):
+                if fn.endswith(".txt"):
+                    vcases.append(("corpus:" + fn[:-4], open(os.path.join(cdir, fn)).read()))
+        nv = 120 if ck.thorough() else 14
+        vcases += cases[:: max(1, len(cases) // nv)]
+
+        def vrun(c):
+            cid, scr = c
+            try:
+                r = sh(["valgrind", "-q", "--error-exitcode=9", "--track-origins=no", os.path.join(b, "h_solve")], input=scr,
+                       timeout=900 if ck.thorough() else 240, env={"QSX_SCRATCH": tmp})
+                return cid, scr, r.returncode, r.stderr
+            except subprocess.TimeoutExpired:
+                return cid, scr, None, ""
+        from multiprocessing.pool import ThreadPool
+        with ThreadPool(16) as pool:
+            vres = pool.map(vrun, vcases)
+        vto = 0
+        for cid, scr, rc, err in vres:
+            if rc is None:
+                vto += 1
+                continue
+            nval += 1
+            if rc == 9:
+                m = re.search(r"==\d+== (Conditional jump[^\n]*|Use of uninit[^\n]*|Invalid (?:read|write)[^\n]*|Syscall param[^\n]*)\n==\d+==\s+at 0x[0-9A-F]+: (\w+)", err)
+                fn = m.group(2) if m else "?"
+                ck.violation("valgrind_%s.txt" % cid.replace(":", "_"), scr + "\n# " + err[-1500:].replace("\n", "\n# "),
+                             "valgrind memcheck error in %s (case %s)" % (fn, cid), match=dict(kind="memcheck", site=fn))
+        ck.cov["valgrind_timeouts"] = vto
         ck.cov["valgrind_cases"] = nval
         ck.sample(dict(case=cases[0][0], script=cases[0][1][:300]))
         ck.sample(dict(case=cases[-1][0], script=cases[-1][1][:300]))
@@ -129,11 +152,11 @@ def main():
     ck.cov["rule"] = ("valid call sequences: LP families x configurations (all entry points, pricing rules, scaling, warm starts) followed by further solves, valid edits, "
                       "accessors, basis calls, LP/MPS writes; reads of valid and malformed files; executed (1) on the ASan+UBSan build with GMP allocations routed to malloc "
                       "(EG_LPNUM_MEMSLAB=0), (2) twice on the plain build in fresh processes with MALLOC_PERTURB_ 85 / 170 and ASLR on, transcripts compared line by line, "
-                      "(3) thorough: a subset under valgrind memcheck; non-trivial = a case whose script ran to completion; distinct by script")
+                      "(3) a subset (quick: 14 + corpus, thorough: 120 + corpus) under valgrind memcheck; non-trivial = a case whose script ran to completion; distinct by script")
     ck.cov["evaluations"] = len(cases)
     ck.cov["explanation"] = ("Runtime half of C17 is exercised, not proved: a Gallina model has no heap. The model half (index safety of every modelled array access, "
                              "status/basis array dimensions) lives in the theorems of the store and reader models (C06, C07, C11).")
-    ck.cov["not_covered"] = "memory safety outside the explored scripts; uninitialised reads are only examined by valgrind in the thorough tier"
+    ck.cov["not_covered"] = "memory safety outside the explored scripts; uninitialised reads are examined by valgrind on a subset of the scripts only"
     ck.assumptions = ["ASan/UBSan/valgrind as detectors", "GMP itself is trusted"]
     ck.finish()
 
